@@ -53,6 +53,7 @@ type nasMsg struct {
 	EncOrder []string // optional fields in encode order
 	DecCases map[string]string
 	Loop     string // rendering of the decode loop header/preamble
+	LoopFn   string // the helper that reads and normalises the IEI octet, when the preamble is a call of one
 	Problems []string
 	EncPos   token.Pos
 	DecPos   token.Pos
@@ -477,9 +478,21 @@ func (m *nasModel) decodeLoop(msg *nasMsg, loop *ast.ForStmt, byField map[string
 		cond = exprStr(loop.Cond)
 	}
 	var pre []string
+	ieiName := "ieiN" // the variable holding the octet as read
 	for _, s := range loop.Body.List {
 		sw, ok := s.(*ast.SwitchStmt)
 		if !ok {
+			// ieiN, ieType := helper(buffer): the preamble lives in a helper shared by the decoders
+			if as, isAs := s.(*ast.AssignStmt); isAs && as.Tok == token.DEFINE && len(as.Lhs) == 2 && len(as.Rhs) == 1 && len(pre) == 0 {
+				if call, isCall := as.Rhs[0].(*ast.CallExpr); isCall && len(call.Args) == 1 && exprStr(call.Args[0]) == "buffer" {
+					if fid, isId := call.Fun.(*ast.Ident); isId {
+						msg.LoopFn = fid.Name
+						ieiName = exprStr(as.Lhs[0])
+						pre = append(pre, "octet, "+exprStr(as.Lhs[1])+" := @helper(buffer)")
+						continue
+					}
+				}
+			}
 			pre = append(pre, stmtStr(s))
 			continue
 		}
@@ -510,7 +523,7 @@ func (m *nasModel) decodeLoop(msg *nasMsg, loop *ast.ForStmt, byField map[string
 					// a.F = nasType.NewT(ieiN)
 					if s2, ok := lhs.(*ast.SelectorExpr); ok {
 						if id, ok := s2.X.(*ast.Ident); ok && id.Name == "a" {
-							if call, ok := x.Rhs[0].(*ast.CallExpr); ok && len(call.Args) == 1 && exprStr(call.Args[0]) == "ieiN" {
+							if call, ok := x.Rhs[0].(*ast.CallExpr); ok && len(call.Args) == 1 && exprStr(call.Args[0]) == ieiName && ieiName != "_" {
 								fld = s2.Sel.Name
 								toks = append(toks, nasTok{Field: fld, Part: "New", Arg: strings.TrimPrefix(exprStr(call.Fun), "nasType.")})
 								continue
@@ -518,7 +531,7 @@ func (m *nasModel) decodeLoop(msg *nasMsg, loop *ast.ForStmt, byField map[string
 						}
 					}
 					// a.F.Octet = ieiN
-					if f, mth, ok := selField(lhs); ok && mth == "Octet" && exprStr(x.Rhs[0]) == "ieiN" {
+					if f, mth, ok := selField(lhs); ok && mth == "Octet" && exprStr(x.Rhs[0]) == ieiName && ieiName != "_" {
 						toks = append(toks, nasTok{Field: f, Part: "ValueFromIei"})
 						continue
 					}
